@@ -31,8 +31,12 @@ func init() {
 		q, _ := v.Case["baseline_query"].(string)
 		// a recorded carrier defect is one the faithful model reproduces (each class has its `_refuted`
 		// lemma in Coq): a deviation in one of these renderings that the model does NOT predict is new
+		// (when the model could not be built at all the run reports that; the classes are then told by
+		// the rendering alone so that the recorded findings do not mask the broken build step)
 		if ok, _ := v.Case["model_predicts"].(bool); !ok {
-			return ""
+			if absent, _ := v.Case["model_absent"].(bool); !absent {
+				return ""
+			}
 		}
 		switch v.Case["rendering"] {
 		case "named-strings-bools":
@@ -445,7 +449,7 @@ func c10(c *Ctx) {
 				c.Violation("relation", fmt.Sprintf("query %q: the %s rendering of the same document gives %s, the JSON rendering gives %s", gr.q, gr.names[i+1], short(got), short(base)),
 					map[string]any{"kind": "eval", "query": ec.Query, "data": ec.Data.String(), "err_class": true, "baseline_query": gr.q, "baseline_data": gr.cases[0].Data.String(),
 						"implementation": ec.Impl.String(), "impl_note": ec.Impl.Note, "baseline": gr.cases[0].Impl.String(), "rendering": gr.names[i+1],
-						"model_predicts": ec.Model.Class != "declined" && obs(ec.Model, true) == got})
+						"model_predicts": ec.Model.Class != "declined" && obs(ec.Model, true) == got, "model_absent": ec.ModelLine == ""})
 			}
 		}
 	}
